@@ -578,24 +578,33 @@ def _constraint_template(ctx, rid, repo):
         "g2": Obj("g2", {"n_parameters": c(1), "pdf_type": "normal", "auxdata": [at("ng2")]}, closed=True),
         "p2": Obj("p2", {"n_parameters": c(1), "pdf_type": "poisson", "factors": [at("f2")], "auxdata": [at("np2")]}, closed=True),
     }
-    slices = {"mu": (0, 1), "p1": (1, 3), "g1": (3, 5), "p2": (5, 6), "g2": (6, 7)}  # parameter order != auxiliary order
-    aux_order = ["g1", "p1", "g2", "p2"]
+    # two configurations with the SAME numbers of Gaussian / Poisson auxiliary data in different interleavings, built one
+    # after the other in one world (module-level state of pdf.py / constraints.py shared): the second model must not
+    # inherit anything from the first.  parameter order != auxiliary order in both.
+    layouts = [
+        ({"mu": (0, 1), "p1": (1, 3), "g1": (3, 5), "p2": (5, 6), "g2": (6, 7)}, ["g1", "p1", "g2", "p2"]),
+        ({"g2": (0, 1), "mu": (1, 2), "g1": (2, 4), "p2": (4, 5), "p1": (5, 7)}, ["p1", "p2", "g1", "g2"]),
+    ]
     cmc = repo.cls(PDF, "_ConstraintModel")
     for m_ in cmc.methods.values():
         ctx.touch(m_)
-    for bs in (None, 2):
-        site = f"{PDF}::_ConstraintModel end to end [batch_size={bs}]"
+    for bs, li in ((None, 0), (None, 1), (2, 0), (2, 1)):
+        slices, aux_order = layouts[li]
+        site = f"{PDF}::_ConstraintModel end to end [batch_size={bs}, {'first' if li == 0 else 'second'} model of the process]"
         try:
-            w = viewers.world(repo, {"normal_dist": dist("normal_dist"), "poisson_dist": dist("poisson_dist"), ".log_prob": log_prob, "param_set": lambda a, k: psets[a[0]]})
-            w.add_class(cmc)
-            for cn in ("gaussian_constraint_combined", "poisson_constraint_combined"):
-                w.add_class(repo.cls(CON, cn))
-            pattrs = {}
-            for cn in ("_SimpleDistributionMixin", "Poisson", "Normal", "Independent", "Simultaneous"):
-                k_ = repo.cls(PROB, cn)
-                w.add_class(k_)
-                pattrs[cn] = PyFunc(lambda a, kw, k_=k_: w.new(k_, a, kw), cn)
-            w.module_env["prob"] = Obj("prob", pattrs)
+            if li == 0:
+                w = viewers.world(repo, {"normal_dist": dist("normal_dist"), "poisson_dist": dist("poisson_dist"), ".log_prob": log_prob, "param_set": lambda a, k: psets[a[0]]})
+                w.add_class(cmc)
+                for cn in ("gaussian_constraint_combined", "poisson_constraint_combined"):
+                    w.add_class(repo.cls(CON, cn))
+                pattrs = {}
+                for cn in ("_SimpleDistributionMixin", "Poisson", "Normal", "Independent", "Simultaneous"):
+                    k_ = repo.cls(PROB, cn)
+                    w.add_class(k_)
+                    pattrs[cn] = PyFunc(lambda a, kw, k_=k_, w=w: w.new(k_, a, kw), cn)
+                w.module_env["prob"] = Obj("prob", pattrs)
+                for rel_ in (PDF, CON, PROB):
+                    w.load_globals(repo.module(rel_))
             cfg = Obj("config", {"npars": c(7), "par_map": {n: {"slice": sl(*se)} for n, se in slices.items()}, "auxdata": [at(f"nominal_aux{j}") for j in range(6)], "auxdata_order": list(aux_order)})
             cm = w.new(cmc, [cfg, None if bs is None else c(bs)], {})
             rows = bs or 1
@@ -623,8 +632,8 @@ def _constraint_template(ctx, rid, repo):
             if len(got) == len(want) and all(g_ == w_ for g_, w_ in zip(got, want)):
                 ctx.holds(rid, site, f"{want[0]}")
             else:
-                ctx.violated(rid, cmc.methods["logpdf"], f"constraint log-density [batch_size={bs}]", "the constraint log-density is not the HistFactory template: one Normal(aux_k | theta_k, width_k) per Gaussian-constrained component and one Poisson(aux_k | theta_k factor_k) per Poisson-constrained component, each parameter paired with the auxiliary datum at its own position", expected=str([str(x) for x in want]), found=str([str(x) for x in got]))
+                ctx.violated(rid, cmc.methods["logpdf"], f"constraint log-density [batch_size={bs}]" + ("" if li == 0 else " of a model built after another one with the same numbers of auxiliary data"), "the constraint log-density is not the HistFactory template: one Normal(aux_k | theta_k, width_k) per Gaussian-constrained component and one Poisson(aux_k | theta_k factor_k) per Poisson-constrained component, each parameter paired with the auxiliary datum at its own position", expected=str([str(x) for x in want]), found=str([str(x) for x in got]))
         except FragmentFault as e:
-            ctx.violated(rid, cmc, f"_ConstraintModel end to end [batch_size={bs}]", f"on a well-formed configuration the code indexes outside its own tensors: {e}")
+            ctx.violated(rid, cmc, f"_ConstraintModel end to end [batch_size={bs}, model {li + 1}]", f"on a well-formed configuration the code indexes outside its own tensors: {e}")
         except (Undecided, KeyError, TypeError, ValueError, IndexError, AttributeError) as e:
-            ctx.unrecognised(rid, cmc, f"_ConstraintModel end to end [batch_size={bs}]", f"not interpretable: {type(e).__name__}: {e}")
+            ctx.unrecognised(rid, cmc, f"_ConstraintModel end to end [batch_size={bs}, model {li + 1}]", f"not interpretable: {type(e).__name__}: {e}")
